@@ -188,6 +188,18 @@ func (m *c12model) exprType(e influxql.Expr, src influxql.Sources) influxql.Data
 		return t
 	case *influxql.ParenExpr:
 		return m.exprType(e.Expr, src)
+	case *influxql.BinaryExpr:
+		// arithmetic over integers and floats (the only operand kinds the
+		// generator writes): a float operand makes the result a float, two
+		// integers stay an integer - also under division
+		l, r := m.exprType(e.LHS, src), m.exprType(e.RHS, src)
+		switch {
+		case l == influxql.Float && (r == influxql.Float || r == influxql.Integer), r == influxql.Float && l == influxql.Integer:
+			return influxql.Float
+		case l == influxql.Integer && r == influxql.Integer:
+			return influxql.Integer
+		}
+		return influxql.Unknown
 	case *influxql.NumberLiteral:
 		return influxql.Float
 	case *influxql.IntegerLiteral:
@@ -498,7 +510,12 @@ func c12GenSelectAt(rg *mon.Rng, depth int, top bool) string {
 		case 11:
 			f = fn + "()"
 		case 12:
-			f = rg.Pick(fn+"(*::tag)", "* + 1", "(f0)", "top(f0, t0, 2)", "f1")
+			f = rg.Pick(fn+"(*::tag)", "* + 1", "(f0)", "top(f0, t0, 2)", "f1", "((f0))", "(((f1)))", "((f2::float))")
+			if !top && rg.P(0.4) {
+				// arithmetic over explicitly typed integer / float operands, under
+				// an alias: a column of the subquery whose type the model knows
+				f = rg.Pick("f0::integer / f1::integer", "f0::integer + f1::float", "f0::float * 2", "f2::integer % f0::integer", "(f0::integer - 1)", "f1::integer / 2", "f1::float / f0::float", "f0::integer * f1::integer - f2::integer") + " AS q" + fmt.Sprint(i)
+			}
 			if top && rg.P(0.4) {
 				// arithmetic fields only at the top level: their output type as a
 				// subquery column is outside the model
@@ -507,7 +524,7 @@ func c12GenSelectAt(rg *mon.Rng, depth int, top bool) string {
 		default:
 			f = fn + "(" + c12fieldPool[rg.Intn(len(c12fieldPool))] + ", *)"
 		}
-		if rg.P(0.2) && !strings.HasPrefix(f, "*") && !strings.HasPrefix(f, "/") {
+		if rg.P(0.2) && !strings.HasPrefix(f, "*") && !strings.HasPrefix(f, "/") && !strings.Contains(f, " AS ") {
 			f += " AS a" + fmt.Sprint(i)
 		}
 		fields = append(fields, f)
